@@ -684,4 +684,11 @@ def flat_guards(fv, target, brs=None, depth=3):
                     out.append((b2.expr, l2, "all"))
                 continue
         out.append((br.expr, labels, "raw"))
-    return out
+    # normalise `!x` tests: strip the Not and flip the outcome
+    norm = []
+    for e, labels, how in out:
+        while isinstance(e, tuple) and e and e[0] == "un" and e[1] == "Not" and labels <= {"true", "false"}:
+            e = e[2]
+            labels = {"false" if l == "true" else "true" for l in labels}
+        norm.append((e, labels, how))
+    return norm
